@@ -88,7 +88,7 @@ def g_unrooted(rng):
     return {"name": "unrooted", "spec": spec, "evals": ["like", "treeprior", "prior.kappa", "prior.shape", "joint"],
             "leaves": {"tree.blens.unres": "real", "freqs.unres": "real", "kappa": "positive", "shape": "positive", "pinv": "unit", "mu": "positive",
                        "gd.alpha": "positive", "gd.c": "positive", "gd.shape": "positive", "gd.rate": "positive", "prior.kappa.loc": "real", "prior.kappa.scale": "positive"},
-            "derived": ["tree.blens", "freqs"], "tensors": {"tree": "branch_lengths()", "site": "rates()", "sm": "frequencies"}}
+            "derived": ["tree.blens", "freqs"], "tensors": {"tree": "branch_lengths()", "site": ["rates()", "probabilities()"], "sm": "frequencies"}}
 
 
 def time_tree_bits(rng, n, param, clock="strict"):
@@ -136,10 +136,10 @@ def g_time_ratio(rng):
             {"id": "bdsk.origin", "type": "TransformedParameter", "transform": "torch.distributions.AffineTransform", "parameters": {"loc": "tree.root_height", "scale": 1.0},
              "x": P("bdsk.origin.delta", [0.8])},
             {"id": "bdsk", "type": "BDSKModel", "tree_model": "tree", "R": P("bdsk.R", [1.5, 2.0]), "delta": P("bdsk.delta", [1.0, 0.7]), "s": P("bdsk.s", [0.3, 0.4]),
-             "rho": P("bdsk.rho", [0.0]), "origin": "bdsk.origin"},
+             "rho": P("bdsk.rho", [0.35]), "origin": "bdsk.origin"},
             {"id": "joint", "type": "JointDistributionModel", "distributions": ["like", "coal", "ctmc", "bdsk", "tree", "clock.rate", "tree.ratios", "tree.root_height.shifted"]}]
     leaves.update({"clock.rate.unres": "real", "gtr.rates": "positive", "gtr.freqs": "simplex", "coal.theta": "positive", "expcoal.theta": "positive", "expcoal.growth": "real",
-                   "bdsk.origin.delta": "positive", "bdsk.R": "positive", "bdsk.delta": "positive", "bdsk.s": "unit"})
+                   "bdsk.origin.delta": "positive", "bdsk.R": "positive", "bdsk.delta": "positive", "bdsk.s": "unit", "bdsk.rho": "unit"})
     return {"name": "time-ratio", "spec": spec, "evals": ["like", "coal", "expcoal", "coalint", "ctmc", "bdsk", "tree", "joint"], "leaves": leaves,
             "derived": derived + ["clock.rate", "bdsk.origin"], "tensors": {"tree": "node_heights", "clock": "rates"}}
 
@@ -166,14 +166,18 @@ def g_time_shift(rng):
             {"id": "gmrf", "type": "GMRF", "x": "skygrid.theta", "precision": P("gmrf.precision", [1.5])},
             {"id": "gmrfint", "type": "GMRFGammaIntegrated", "x": "skygrid.theta", "shape": 0.5, "rate": 0.7},
             {"id": "skyglide", "type": "PiecewiseLinearCoalescentGridModel", "tree_model": "tree", "theta": P("skyglide.theta", np.exp(rng.normal(1, 0.5, 4)).tolist()), "cutoff": 6.0},
+            # grids that end well below the root (events beyond the last grid point fall on the last, constant piece)
+            {"id": "skyglide.short", "type": "PiecewiseLinearCoalescentGridModel", "tree_model": "tree", "theta": P("skyglide.short.theta", np.exp(rng.normal(1, 0.5, 3)).tolist()), "cutoff": 0.9},
+            {"id": "skygrid.short", "type": "PiecewiseConstantCoalescentGridModel", "tree_model": "tree", "theta": P("skygrid.short.theta", np.exp(rng.normal(1, 0.5, 3)).tolist()), "cutoff": 0.9},
             {"id": "origin", "type": "TransformedParameter", "transform": "torch.distributions.AffineTransform",
              "parameters": {"loc": {"id": "root.view", "type": "ViewParameter", "parameter": "tree.shifts", "indices": "-1:"}, "scale": 1.0},
              "x": P("origin.delta", [0.8])},
             {"id": "joint", "type": "JointDistributionModel", "distributions": ["like", "skyride", "gmrf.ta", "skygrid", "gmrf", "tree", "tree.shifts", "skyride.theta"]}]
     leaves.update({"clock.mean": "positive", "clock.rates.unscaled": "positive", "kappa": "positive", "freqs": "simplex", "pinv": "unit", "skyride.theta.log": "real",
-                   "gmrf.ta.precision": "positive", "skygrid.theta": "positive", "gmrf.precision": "positive", "skyglide.theta": "positive", "origin.delta": "positive"})
-    return {"name": "time-shift", "spec": spec, "evals": ["like", "skyride", "gmrf.ta", "skygrid", "gmrf", "gmrfint", "skyglide", "tree", "joint"], "leaves": leaves,
-            "derived": derived + ["clock.rates", "skyride.theta", "origin", "root.view"], "tensors": {"tree": "node_heights", "clock": "rates"}}
+                   "gmrf.ta.precision": "positive", "skygrid.theta": "positive", "gmrf.precision": "positive", "skyglide.theta": "positive", "origin.delta": "positive",
+                   "skyglide.short.theta": "positive", "skygrid.short.theta": "positive"})
+    return {"name": "time-shift", "spec": spec, "evals": ["like", "skyride", "gmrf.ta", "skygrid", "gmrf", "gmrfint", "skyglide", "skyglide.short", "skygrid.short", "tree", "joint"], "leaves": leaves,
+            "derived": derived + ["clock.rates", "skyride.theta", "origin", "root.view"], "tensors": {"tree": "node_heights", "clock": "rates", "site": ["rates()", "probabilities()"]}}
 
 
 def g_general(rng):
@@ -209,7 +213,7 @@ def g_general(rng):
     return {"name": "general", "spec": spec, "evals": ["like.sym", "like.nonsym", "like.jc", "like.codon", "joint"],
             "leaves": {"tree.blens": "positive", "shape": "positive", "sym.rates": "positive", "sym.freqs": "simplex", "nonsym.rates": "positive", "nonsym.freqs": "simplex",
                        "mg.alpha": "positive", "mg.beta": "positive", "mg.kappa": "positive", "mg.freqs": "simplex"},
-            "derived": [], "tensors": {"tree": "branch_lengths()"}}
+            "derived": [], "tensors": {"tree": "branch_lengths()", "site": ["rates()", "probabilities()"]}}
 
 
 def g_distributions(rng):
@@ -264,10 +268,34 @@ def g_time_plain(rng):
             {"id": "skygrid", "type": "PiecewiseConstantCoalescentGridModel", "tree_model": "tree", "theta": P("skygrid.theta", [2.0, 3.0, 4.0]), "grid": P("skygrid.grid", [1.2, 2.2])},
             {"id": "joint", "type": "JointDistributionModel", "distributions": ["like", "skygrid"]}]
     return {"name": "time-plain", "spec": spec, "evals": ["like", "skygrid", "joint"],
-            "leaves": {"clock.rate": "positive", "mu": "positive", "skygrid.theta": "positive"}, "derived": [], "tensors": {"tree": "branch_lengths()"}}
+            "leaves": {"clock.rate": "positive", "mu": "positive", "skygrid.theta": "positive"}, "derived": [], "tensors": {"tree": "branch_lengths()", "site": ["rates()", "probabilities()"]}}
 
 
-GRAPHS = {"time-plain": g_time_plain, "unrooted": g_unrooted, "time-ratio": g_time_ratio, "time-shift": g_time_shift, "general": g_general, "distributions": g_distributions}
+def g_variational(rng):
+    """variational objectives over a small conjugate-looking model: the objectives use their variational model through
+    rsample()/entropy()/log_prob and not only through __call__; they draw samples, so evaluations are seeded (`stochastic`)"""
+    d = 3
+    spec = [P("z", rng.normal(0, 1, d).tolist()), P("obs", rng.normal(0.5, 1, d).tolist()),
+            dist("prior", "torch.distributions.Normal", "z", loc=0.0, scale=P("p.scale", [1.7])),
+            dist("lik", "torch.distributions.Normal", "obs", loc="z", scale=P("lik.scale", [0.8])),
+            {"id": "p", "type": "JointDistributionModel", "distributions": ["prior", "lik"]},
+            {"id": "var", "type": "JointDistributionModel", "distributions": [
+                dist("q", "torch.distributions.Normal", "z", loc=P("q.loc", rng.normal(0, 0.5, d).tolist()), scale=P("q.scale", np.exp(rng.normal(-0.3, 0.2, d)).tolist()))]},
+            {"id": "elbo", "type": "ELBO", "samples": 3, "joint": "p", "variational": "var"},
+            {"id": "elbo.entropy", "type": "ELBO", "samples": 4, "entropy": True, "joint": "p", "variational": "var"},
+            {"id": "elbo.multi", "type": "ELBO", "samples": [2, 3], "joint": "p", "variational": "var"},
+            {"id": "klpq", "type": "KLpq", "samples": 5, "joint": "p", "variational": "var"},
+            {"id": "cubo", "type": "CUBO", "samples": 4, "joint": "p", "variational": "var"},
+            {"id": "vr", "type": "VR", "samples": 4, "alpha": 0.5, "joint": "p", "variational": "var"}]
+    return {"name": "variational", "spec": spec, "evals": ["prior", "lik", "p", "var", "elbo", "elbo.entropy", "elbo.multi", "klpq", "cubo", "vr"],
+            "stochastic": ["elbo", "elbo.entropy", "elbo.multi", "klpq", "cubo", "vr"],
+            "leaves": {"z": "real", "p.scale": "positive", "lik.scale": "positive", "q.loc": "real", "q.scale": "positive"}, "derived": [], "tensors": {}}
+
+
+GRAPHS = {"variational": g_variational, "time-plain": g_time_plain, "unrooted": g_unrooted, "time-ratio": g_time_ratio, "time-shift": g_time_shift, "general": g_general, "distributions": g_distributions}
+
+
+DETERMINISTIC = [k for k in GRAPHS if k != "variational"]  # graphs whose evaluations draw no random numbers (C10, C12)
 
 
 def build(name, seed):
